@@ -26,12 +26,22 @@ uint64_t vh_next(const char *kind);
 #define WITNESS() do { } while (0)
 #define MUSTFAIL(c, msg) do { } while (0)
 #else
-unsigned char nondet_uchar(void);
-uint16_t nondet_u16(void);
-uint32_t nondet_u32(void);
-uint64_t nondet_u64(void);
-size_t nondet_size(void);
-int nondet_int(void);
+/* Every symbolic draw is routed through the global `vh_nd`, so that a
+ * counterexample trace lists all drawn values in execution order
+ * (assignments to a user global are always part of the trace). */
+unsigned char nondet_raw_uchar(void);
+uint16_t nondet_raw_u16(void);
+uint32_t nondet_raw_u32(void);
+uint64_t nondet_raw_u64(void);
+size_t nondet_raw_size(void);
+int nondet_raw_int(void);
+extern uint64_t vh_nd;
+static inline unsigned char nondet_uchar(void) { unsigned char v = nondet_raw_uchar(); vh_nd = v; return v; }
+static inline uint16_t nondet_u16(void) { uint16_t v = nondet_raw_u16(); vh_nd = v; return v; }
+static inline uint32_t nondet_u32(void) { uint32_t v = nondet_raw_u32(); vh_nd = v; return v; }
+static inline uint64_t nondet_u64(void) { uint64_t v = nondet_raw_u64(); vh_nd = v; return v; }
+static inline size_t nondet_size(void) { size_t v = nondet_raw_size(); vh_nd = v; return v; }
+static inline int nondet_int(void) { int v = nondet_raw_int(); vh_nd = (uint64_t)(int64_t)v; return v; }
 #define CHECK(c, msg) __CPROVER_assert((c), msg)
 #define ASSUME(c) __CPROVER_assume(c)
 /* existence claim: the solver must be able to violate this assertion */
